@@ -789,6 +789,16 @@ impl PacketTap {
     pub fn take(&self) -> Vec<PktEv> {
         self.evs.lock().unwrap_or_else(|e| e.into_inner()).clone()
     }
+    /// Visit the events recorded from index `from` on; returns the number of events recorded so far
+    /// (an adversary that wants to know what the datagram it is looking at carries: `packet_sent` is logged when the
+    /// packet is assembled, before its datagram reaches the wire).
+    pub fn scan_from(&self, from: usize, mut f: impl FnMut(usize, &PktEv)) -> usize {
+        let g = self.evs.lock().unwrap_or_else(|e| e.into_inner());
+        for (i, e) in g.iter().enumerate().skip(from) {
+            f(i, e);
+        }
+        g.len()
+    }
 }
 
 struct TapExp {
